@@ -131,6 +131,8 @@ func c18Exprs(thorough bool) (ints, bools, strs []string) {
 	}
 	bools = append(bools, "'${s}' in ['a','b']", "'${s}' in ['b']", "'hello' contains '${s}'", "'h'+'${s}' contains 'ha'", "${n1} in [1,2]", "'${s}'=='a'")
 	strs = []string{"'a'+'b'", "'${s}'+'b'", "1>2?'x':'y'", "${n1}<${n2}?'lt':'ge'", "'${s}' in ['a','b']?'in':'out'", "'${s}'+'${s}'", "(${n1}+${n2})>2?'${s}':'z'"}
+	// string literals that carry an escaped quote of their own kind, a quote of the other kind, braces
+	strs = append(strs, `'it\'s ' + '${s}'`, `"say \"hi\" " + '${s}'`, `"it's " + '${s}'`, `'${s}' + 'x\'' + 'y'`, `'a\\' + '${s}'`)
 	for _, a := range ints[:6+lim] {
 		strs = append(strs, a+">2?'big':'small'")
 	}
@@ -194,7 +196,8 @@ func c18ExprOne(c *core.Ctx, cs c18ExprCase, types map[string]reflect.Type) {
 	{
 		cfg := c18Cfgs[cs.Cfg]
 		doc := fmt.Sprintf("n1: %s\nn2: %s\ns: %s\nk: %s\n", cfg["n1"], cfg["n2"], cfg["s"], cfg["k"])
-		tag := fmt.Sprintf(`value:"#{%s}"`, cs.Expr)
+		// the tag's value is a Go string literal: backslashes and double quotes of the expression are escaped in it
+		tag := fmt.Sprintf(`value:"#{%s}"`, strings.NewReplacer(`\`, `\\`, `"`, `\"`).Replace(cs.Expr))
 		if cs.Via > 0 {
 			doc += "ex: \"#{" + strings.NewReplacer(`\`, `\\`, `"`, `\"`).Replace(cs.Expr) + "}\"\n"
 			tag = []string{"", `value:"${ex}"`, `prop:"ex"`}[cs.Via]
